@@ -182,6 +182,7 @@ def run_model(cases, timeout=1200):
     try:
         def pre():
             resource.setrlimit(resource.RLIMIT_STACK, (resource.RLIM_INFINITY, resource.RLIM_INFINITY))
+            resource.setrlimit(resource.RLIMIT_AS, (resource.RLIM_INFINITY, resource.RLIM_INFINITY))
         with open(path) as fin:
             p = subprocess.run([MODEL_BIN], stdin=fin, stdout=subprocess.PIPE, stderr=subprocess.PIPE,
                                timeout=timeout, preexec_fn=pre, text=True)
